@@ -299,7 +299,13 @@ int main(int argc, char** argv) {
     if (!EV) { fprintf(stderr, "vharness: fd 3 must be open for events\n"); return 2; }
     capfd = memfd_create("vh-cap", 0);
     if (capfd < 0) { perror("memfd_create"); return 2; }
-    if (!(argc > 1 && !strcmp(argv[1], "--nocap"))) { dup2(capfd, 1); dup2(capfd, 2); }
+    if (!(argc > 1 && !strcmp(argv[1], "--nocap"))) {
+        // stdout (fd 1) and the C stream `stderr` go to the capture file; fd 2 itself is left alone because the
+        // sanitizer runtimes write their reports to it directly
+        dup2(capfd, 1);
+        FILE* cap_err = fdopen(dup(capfd), "w");
+        if (cap_err) { setvbuf(cap_err, nullptr, _IONBF, 0); stderr = cap_err; }
+    }
     setvbuf(stdout, nullptr, _IOFBF, 1 << 16);
     btc_logf = btc_logf_dummy;
     btc_sign_logf = sign_sink;
